@@ -340,6 +340,9 @@ partial def runCircuitOps (fresh : OState × CState × SpecC03.Book) (ck : Close
       -- the opener and the closer start afresh; the open/closed flag and the gauges stay
       let c' := { c with clock := c.clock + 1000000000000, opener := fresh.1, closer := fresh.2.1 }
       runCircuitOps fresh ck c' cfgSpec { rb with c03 := fresh.2.2, cc := 0, thr := (match fresh.1 with | .consec o => o.threshold | _ => 0), ep := { sleep := fresh.2.2.sleep, allow := fresh.2.2.half }, openBefore := realOpen } rest (acc.push (s!"open={fmtBool (isOpenEff c')}" ++ "\t-"))
+    | some "view" =>
+      -- the expvar / JSON view of the circuit, its opener and its closer: a read, nothing changes
+      runCircuitOps fresh ck c cfgSpec { rb with openBefore := realOpen } rest (acc.push (s!"open={fmtBool (isOpenEff c)}" ++ "\t-"))
     | some "sib" =>
       -- traffic on a sibling circuit built from the same config value: nothing changes here
       runCircuitOps fresh ck c cfgSpec { rb with openBefore := realOpen } rest (acc.push (s!"open={fmtBool (isOpenEff c)}" ++ "\t-"))
